@@ -243,6 +243,25 @@ u_table(uint64_t idx, void *arg)
     }
     rt_model_init(&inst);
     make_content_valid();
+    if (idx & 1) {
+        /* the table has a past: its storage was damaged out of band and sanitised (the outcome of that call is
+         * not this property's business - on tables with always-fail registers or areas that cannot be written it
+         * stops with an error), then put right out of band; block writes must be judged as on any other table */
+        for (int i = 0; i < d.nregs; i++)
+            if (vh_chance(&rg, 1, 2))
+                rt_encode(d.reg[i].type, d.bigendian, vh_chance(&rg, 1, 2) ? ~0ull : vh_rand(&rg), rt_model_word(&inst, d.reg[i].addr));
+        for (int a = 0; a < d.nareas; a++)
+            memcpy(inst.store[a], inst.model[a], 2 * (size_t)d.area[a].size);
+        RegisterAccess sa = register_sanitise(&inst.t);
+        if (sa.code == REG_ACCESS_SUCCESS)
+            VH_COUNT("table with a past: damaged, sanitise succeeded");
+        else
+            VH_COUNT("table with a past: damaged, sanitise stopped with an error");
+        rt_sync_model_from_storage(&inst);
+        make_content_valid();
+        for (int i = 0; i < d.nregs; i++)
+            inst.touched[i] = register_was_touched(&inst.t, (RegisterHandle)i);
+    }
     uint32_t lo = d.area[0].base, hi = d.area[d.nareas - 1].base + d.area[d.nareas - 1].size;
     uint32_t span = hi - lo;
     uint32_t a0 = lo >= 2 ? lo - 2 : 0;
@@ -347,7 +366,8 @@ harness_run(void)
                                  "failing register overlap: interior invalid",
                                  "tables with 1 areas", "tables with 2 areas", "tables with 3 areas",
                                  "block write much longer than the table",
-                                 "block write whose address + length passes 2^32" };
+                                 "block write whose address + length passes 2^32",
+                                 "table with a past: damaged, sanitise stopped with an error" };
     for (size_t i = 0; i < sizeof req / sizeof req[0]; i++)
         vh_require(req[i]);
 }
